@@ -261,41 +261,51 @@ def scen_budget(g, name, typ):
     r = g.r
     N = r.choice([62, 63, 70, 100, 125, 140])
     L = ["hist " + name]
-    quiet = lambda k, fin: ";".join([":P"] * k + ([fin] if fin else []))
-    clone = lambda k, fin: ";".join(["c:P"] + [":P"] * (k - 1) + ([fin] if fin else []))
+    quiet = lambda k, fin: ";".join([":P"] * k + ([fin] if fin else [])) or "-"
+    clone = lambda k, fin: ";".join((["c:P"] + [":P"] * (k - 1) if k else []) + ([fin] if fin else [])) or "-"
     nid = 1
+    # variants: every child pending at first (the poll that fills / drains must stop on its budget
+    # without an item), all ending at once (> B completions in one call), or a child that completes
+    # exactly on the budget-th poll of a call
+    variant = r.choice(["mixed", "allpend", "allend", "boundary"])
+    bpos = r.choice([61, 61, 62, 60])
+    def kfin(j, fins):
+        """(pending steps, final) of the j-th child (1-based)"""
+        if variant == "allpend":
+            return r.choice([1, 2, 3]), r.choice(fins)
+        if variant == "allend":
+            return 0, fins[0]
+        if variant == "boundary":
+            return (0, fins[0]) if j == bpos else (r.choice([2, 3]), r.choice(fins))
+        return r.choice([0, 1, 2, 3]), r.choice(fins)
     if typ in ("FUB", "FOB"):
         L += ["new %s cap=%d" % (typ, N + r.choice([0, 0, 3])), "build"]
     elif typ in ("FU", "FO", "MU"):
         L += ["new %s %s" % (typ, r.choice(["cap=1", "cap=2", "new=1", "cap=64"])), "build"]
     elif typ == "MB":
         L += ["new MB"]
-        for _ in range(N):
-            k = r.choice([1, 2, 3])
-            fin = r.choice([":E", ":E", ":I;:E", None])
+        for j in range(1, N + 1):
+            k, fin = kfin(j, [":E", ":E", ":I;:E", None])
             L.append("init %d %s" % (nid, (clone if r.random() < 0.5 else quiet)(k, fin))); nid += 1
         L.append("build")
     elif typ in ("JA", "TJA"):
         L += ["new " + typ]
-        for _ in range(N):
-            k = r.choice([1, 2, 3])
-            fin = ":X" if (typ == "TJA" and r.random() < 0.02) else ":R"
+        for j in range(1, N + 1):
+            k, fin = kfin(j, [":R"])
+            if typ == "TJA" and r.random() < 0.02:
+                fin = ":X"
             L.append("init %d %s" % (nid, (clone if r.random() < 0.5 else quiet)(k, fin))); nid += 1
         L.append("build")
     else:  # adapters
         n = r.choice([62, 65, 66, 70, 100, 130])
         L += ["new %s n=%d" % (typ, n)]
-        for _ in range(n + r.choice([5, 40])):
-            k = r.choice([0, 1, 2, 3])
-            L.append("up item " + ((clone if r.random() < 0.5 else quiet)(k, ":R") if k else ":R")); nid += 1
+        for j in range(1, n + r.choice([5, 40]) + 1):
+            k, fin = kfin(j, [":R"])
+            L.append("up item " + (clone if r.random() < 0.5 else quiet)(k, fin or ":R")); nid += 1
         L += ["up end", "build"]
     if typ in ("FUB", "FOB", "FU", "FO", "MU"):
-        for _ in range(N):
-            k = r.choice([1, 2, 3, 4])
-            if typ == "MU":
-                fin = r.choice([":E", ":E", ":I;:E", None])
-            else:
-                fin = r.choice([":R", ":R", None])
+        for j in range(1, N + 1):
+            k, fin = kfin(j, [":E", ":E", ":I;:E", None] if typ == "MU" else [":R", ":R", None])
             L.append("push %d %s" % (nid, (clone if r.random() < 0.5 else quiet)(k, fin))); nid += 1
     nh = 0
     for rnd in range(r.choice([3, 5, 8])):
@@ -370,8 +380,9 @@ def scen_reuse(g, name, typ):
         L.append("build")
     else:
         L += ["new %s cap=%d" % (typ, cap if typ in ("FUB", "FOB") else r.choice([1, 2, 4])), "build"]
-        for _ in range(cap):
-            L.append("push %d c.c:P;c:P;%s" % (nid, fin)); nid += 1
+        for j in range(cap):
+            body = "c.c:P;c:P;" + (fin if (j or r.random() < 0.5) else ":P;:P;:P;:P;:P;:P;:P;:P;:P;:P;:P;:P;:P;:P")
+            L.append("push %d %s" % (nid, body)); nid += 1
     L.append("poll 1")          # every child clones two handles: 0 .. 2cap-1
     L.append("poll 1")
     nh = 2 * cap
@@ -387,6 +398,9 @@ def scen_reuse(g, name, typ):
             h = r.randrange(nh + cap)
             L.append("env %s%d" % (r.choice(["w", "W", "W", "k"]), h))
         L.append("poll %d" % r.choice([1, 2]))
+    # a quiet tail: nobody wakes anything any more, the collection must go to sleep
+    for _ in range(r.choice([0, 6, 10])):
+        L.append("poll 1")
     L.append("dropcoll")
     for _ in range(r.choice([0, 2, 5])):
         L.append("env %s%d" % (r.choice(["w", "W", "d", "k"]), r.randrange(nh + cap)))
